@@ -141,9 +141,10 @@ DidChange2 ==
     /\ UNCHANGED open
 
 \* Something happens to ANOTHER document of the package (its gleam.toml or a sibling module is opened, or reported changed
-\* on disk): neither side's text of THIS document changes.  (The driver renders `other` as such a notification.)
+\* on disk), or the editor reports that it SAVED this document (whatever reached the disk - an older state, while the user
+\* kept typing - is not the editor's text): neither side's text of THIS document changes.  (The driver renders `other` as such a notification.)
 OtherDoc == /\ open /\ TrackHist
-            /\ \E k \in Pick({"open_toml", "watched_toml", "open_sibling"}) :
+            /\ \E k \in Pick({"open_toml", "watched_toml", "open_sibling", "save_self"}) :
                   hist' = Append(hist, [pre |-> client, changes |-> <<>>, posts |-> <<server>>, other |-> k])
             /\ UNCHANGED <<open, client, server>>
 
